@@ -136,7 +136,7 @@ def run(ck):
             with solver_log(log), xr.quiet():
                 # every other fit also asks for the AGOP of the selected model (a read-only fit_M after the restore, as xRFM does for its leaves)
                 m.fit((X, Y), (Xv, Yv), iters=iters, reg=lam, solver=solver, return_best_params=rb, early_stop_rfm=early,
-                      early_stop_multiplier=1.05, verbose=False, **(dict(get_agop_best_model=True) if (i // 5) % 2 else {}))
+                      early_stop_multiplier=1.05, verbose=bool(i % 6 == 2), **(dict(get_agop_best_model=True) if (i // 5) % 2 else {}))      # every sixth fit reports progress (output discarded)
         except Exception as e:
             ck.violation(f'leaf fit raised {e!r} on {desc}', dict(desc, error=repr(e)), key=json.dumps(dict(site='fit-raise', kernel=kern, solver=solver)))
             continue
